@@ -118,6 +118,26 @@ def seeded_cases(ctx):
             out.append(ev("dec", f, [4], data, sorted([[p, rng.randrange(1, q)], [(p + 17) % n, rng.randrange(1, q)]])))
         for p in ps[::max(1, len(ps) // 64)]:                    # single errors take a shortcut in the decoder
             out.append(ev("dec", f, [4], data, [[p, rng.randrange(1, q)]]))
+    # error patterns within capacity AIMED at decoders that look at only some syndromes (gfaim: "blind" windows of vanishing syndromes,
+    # "ghost" single errors): every field, several code shapes
+    import gfaim
+    aim = {1: [(16, 10), (9, 17), (68, 18), (13, 13)], 2: [(5, 7), (30, 20), (12, 12)], 3: [(7, 8), (4, 10)], 4: [(20, 10), (40, 22)],
+           5: [(50, 12), (200, 30)], 6: [(60, 12), (400, 40)]}
+    for f, shapes in aim.items():
+        q, base, _ = FIELDS[f]
+        for (k, r) in shapes:
+            data = rand_data(rng, q, k)
+            for kind, errs in gfaim.patterns(f, q, base, k + r, r, rng, per=1 if ctx.quick else 4):
+                out.append(ev("dec", f, [r], data, sorted(errs)))
+    # encoder: data whose parity STARTS with one, two or three zeros (the division's remainder is shorter than r), every field
+    for f, shapes in aim.items():
+        q, base, _ = FIELDS[f]
+        for (k, r) in shapes[:2]:
+            for lead in (1, 2, 3):
+                if lead < r:
+                    d = gfaim.zero_parity_data(f, q, base, k, r, lead, rng)
+                    if d:
+                        out.append(ev("enc", f, [r], d))
     # encoder only: generator cache exercised in non-monotone order of degrees, every r of a small field
     for f in (1, 2, 3, 4):
         q = FIELDS[f][0]
